@@ -88,6 +88,7 @@ def iterator_disposition(b, bb):
 FIRST_ONLY = {
     "re_matcher::ReMatcher::match_at": "the program ends with EndProgram, so the first result of the top-level iterator is a complete match and the preferred one; no later result is asked for at this start position",
     "re_matcher::ReMatcher::check_preconditions": "a precondition only asks whether its operation matches at all at a position",
+    "re_matcher::ReMatcher::check_preconditions::{closure#0}": "the same test written as the predicate of Iterator::any",
     "<op_greedy_fixed::GreedyFixed as %s>::matches_iter" % OC: "the repeated term has a fixed positive length (FIXED-LEN-POSITIVE, QUANT-LOWER): all its results at p are p+len",
     "<op_reluctant_fixed::ReluctantFixedIterator as std::iter::Iterator>::next": "the repeated term has a fixed positive length: all its results at p are p+len",
     "<op_unambiguous_repeat::UnambiguousRepeat as %s>::matches_iter" % OC: "built only for a single-character Atom/CharClass child (OPT-UNAMB-SITES), which has at most one result",
@@ -118,7 +119,7 @@ def iter_retain(ctx):
             else:
                 out.append(bad(key, "the iterator over the matches of a sub-operation created here is %s (%s) instead of being kept for backtracking; this site is not one of the audited first-result sites" % ("dropped after next()" if kind == "next-only" else "used otherwise", detail), caller.loc(bb)))
     for p_ in FIRST_ONLY:
-        if p_ not in seen and ctx.body(p_) is None:
+        if p_ not in seen and ctx.body(p_) is None and "{closure" not in p_:  # closure entries are alternate shapes, optional
             out.append(bad("audited-site-missing|" + p_, "audited first-result site %s no longer exists (re-audit FIRST_ONLY)" % p_, None))
     # the dispatcher hands the variant's iterator on unchanged
     db = ctx.body(DISPATCH)
